@@ -1,5 +1,6 @@
 CONFIG = dict(
-    coqfiles=["Props/C20.v"],
+    coqfiles=["Props/C20.v", "Props/C20X.v"],
+    sub=["C20X"],
     n_quick=24000, n_thorough=1200000, workers_quick=8,
     rule="26% structured digests over the eight functions (valid, damaged hash, negative size, unknown/UNKNOWN function, all compressors, random uuid): construct, every getter, "
          "read/write path, proto and compact-binary round trips, ancestors; 20% read and 16% write resource names from a token grammar (45% valid, 40% one or two token mutations: "
